@@ -80,6 +80,11 @@ class T(object):
             return v
         if k == 'ints':
             return VSeq(z3.Const(fresh_name(name), smt.Seq), 'int', 'list')
+        if k == 'tuples':
+            from .values import VTupSeq
+            v = VTupSeq([z3.Const(fresh_name('%s.%d' % (name, i)), smt.Seq) for i in range(self.kw['arity'])])
+            st.assume(v.same_len())
+            return v
         if k == 'none':
             return VNone()
         if k == 'opaque':
@@ -113,6 +118,11 @@ class T(object):
     @staticmethod
     def ints():
         return T('ints')
+
+    @staticmethod
+    def tuples(arity):
+        """list (symbolic length) of `arity`-tuples of ints"""
+        return T('tuples', arity=arity)
 
     @staticmethod
     def none():
